@@ -34,10 +34,10 @@ helper_t* g_h;
    deferred again (defer_event pushes it at the back with sequence (char)(m_cur_seq+1) -- defer_event's own unit proves that) */
 static execute_return invoke_deferred(int ticket){
   __CPROVER_assert(g_nlog < 8*QN+8, "log capacity"); g_log[g_nlog++]=ticket;
-  int r=nondet_int(); __CPROVER_assume(r==HANDLED_FALSE||r==HANDLED_TRUE||r==HANDLED_DEFERRED||r==HANDLED_GUARD_REJECT);
+  int r=nondet_int(); __CPROVER_assume(0<=r && r<=7);      /* every bit combination of HANDLED_TRUE / GUARD_REJECT / DEFERRED orthogonal regions can produce */
   g_res[g_nlog-1]=r;
-  if (r==HANDLED_TRUE || r==HANDLED_GUARD_REJECT) { __CPROVER_assume(g_budget>0); g_budget--; }
-  if (r==HANDLED_DEFERRED){ pair_t p; p.first=ticket; p.second=(char)(g_h->m_cur_seq+1); dq_push_back(&g_h->m_deferred_events_queue,p); }
+  if (r!=HANDLED_FALSE && r!=HANDLED_DEFERRED) { __CPROVER_assume(g_budget>0); g_budget--; }
+  if (r & HANDLED_DEFERRED){ pair_t p; p.first=ticket; p.second=(char)(g_h->m_cur_seq+1); dq_push_back(&g_h->m_deferred_events_queue,p); }
   return (execute_return)r;
 }
 #define cur_seq (m_events_queue->m_cur_seq)      /* the reference local `char& cur_seq = m_events_queue.m_cur_seq;` */
